@@ -76,6 +76,7 @@ import (
 	"slices"
 	"strconv"
 	"strings"
+	"sync/atomic"
 	"unicode/utf8"
 
 	"go.starlark.net/internal/compile"
@@ -720,7 +721,7 @@ type Function struct {
 	module   *Module
 	defaults Tuple
 	freevars Tuple
-	frozen   bool
+	freezing atomic.Bool // Freeze is in progress (cycle guard)
 }
 
 // A Module represents an evaluated Starlark module.
@@ -764,11 +765,15 @@ func (fn *Function) Type() string          { return "function" }
 func (fn *Function) Truth() Bool           { return true }
 func (fn *Function) Module() *Module       { return fn.module }
 
-// Freeze marks the function before descending: a function can reach
-// itself through its free variables (def g(): return g).
+// Freeze marks the function while it descends: a function can reach
+// itself through its free variables (def g(): return g). The mark is
+// removed afterwards, because a function has no frozen state of its
+// own to remember: the enclosing function may assign a captured
+// variable after an early Freeze of the closure (by the host, say),
+// and the next Freeze (at the end of the module) must reach that value.
 func (fn *Function) Freeze() {
-	if !fn.frozen {
-		fn.frozen = true
+	if fn.freezing.CompareAndSwap(false, true) {
+		defer fn.freezing.Store(false)
 		fn.defaults.Freeze()
 		fn.freevars.Freeze()
 	}
